@@ -12,7 +12,7 @@ import (
 // CheckTx and succeeds in DeliverTx (speculatively, in the next block).
 func TestFarm(t *testing.T) {
 	out := sim.Quiet()
-	for _, o := range []FarmOpts{{A: 0, B: 1, Eth: 0, Var: 0}, {A: 2, B: 5, Eth: 1, Var: 3}} {
+	for _, o := range []FarmOpts{{A: 0, B: 1, Eth: 0, Var: 0}, {A: 2, B: 5, Eth: 1, Var: 3}, {A: 1, B: 2, Eth: 0, Var: 1, Fork: 1}, {A: 3, B: 4, Eth: 1, Var: 2, Fork: 2}} {
 		p := PrepareFarmParams(FarmParams("farmtest"), o)
 		w, err := NewWorld(p, []sim.Role{{ValIdx: 0, IsWitness: true}})
 		if err != nil {
@@ -33,6 +33,9 @@ func TestFarm(t *testing.T) {
 		for _, kind := range FarmKinds {
 			tmpl := w.C.MakeBlock(sim.BlockSpec{GapSecs: 5})
 			tx, err := f.Make(kind)
+			if err != nil && kind == "OLVM" && o.Fork != 0 {
+				continue
+			}
 			if err != nil {
 				t.Errorf("%s: %v", kind, err)
 				continue
@@ -57,6 +60,9 @@ func TestFarm(t *testing.T) {
 		// message calls to the prefix's contracts: all are committed as executed (code 0), also the
 		// ones that fail inside the EVM
 		for _, which := range []string{"store", "revert", "loop"} {
+			if o.Fork != 0 {
+				break // no EVM without the fork
+			}
 			tmpl := w.C.MakeBlock(sim.BlockSpec{GapSecs: 5})
 			tx := f.MakeOLVMCall(which, 0, 7)
 			ck := w.R[0].CheckTx(tx.Bytes)
